@@ -9,7 +9,7 @@
 From Coq Require Import String List ZArith NArith Bool.
 Import ListNotations.
 From Selfies Require Import Base Generated Atoms Grammar Decoder PySet Matching Smiles Kekulize Encoder
-  IndexSpec IndexCode Reader RoundTrip EncoderFacts PureFacts EncArom.
+  IndexSpec IndexCode Reader RoundTrip EncoderFacts PureFacts EncArom EncMatch.
 Local Open Scope string_scope.
 
 Definition C05_matching_sound_statement : Prop :=
@@ -44,6 +44,16 @@ Theorem C05_kekulize_clears_every_aromatic_atom : forall smiles attributable m0 
   Forall (fun p => a_aromatic (fst p) = false) (m_atoms m1).
 Proof. intros smiles attributable m0 m1 Ep Ek. exact (kekulize_dearomatizes m0 m1 (parsed_aro _ _ _ Ep) Ek). Qed.
 
+(* the half of "the returned matching is perfect" that IS true of the library's routine, for every graph: whatever
+   find_perfect_matching returns has one entry per node, every entry names a partner, and each pair i - m[i] is an edge
+   of the graph (in one of the two directions).  What fails (C05_matching_sound_refuted) is that m is an involution. *)
+Theorem C05_returned_matching_covers_along_edges_partial : forall g mt, find_perfect_matching g = Ok (Some mt) ->
+  (length mt = length g /\
+   forall i j, nth_error mt i = Some (Some j) ->
+     (exists li, nth_error g i = Some li /\ In j li) \/ (exists lj, nth_error g j = Some lj /\ In i lj)) /\
+  forall i, (i < length mt)%nat -> exists j, nth_error mt i = Some (Some j).
+Proof. exact perfect_matching_valid. Qed.
+
 Example C05_kekulize_example :
   match smiles_to_mol (lit "c1ccc2[nH]ccc2c1") false with
   | Ok m0 => existsb (fun p => a_aromatic (fst p)) (m_atoms m0) &&
@@ -56,3 +66,4 @@ Print Assumptions C05_matching_sound_refuted.
 Print Assumptions C05_statement_refuted.
 Print Assumptions C05_checker_sound.
 Print Assumptions C05_kekulize_clears_every_aromatic_atom.
+Print Assumptions C05_returned_matching_covers_along_edges_partial.
